@@ -121,17 +121,21 @@ def expand_step(ck, prog, kind):
             ck.oblige('C12.expand.kept.' + tag, p, True, 'the flow is still stored'); continue
         hist = fl[0].fields[9].pairs
         new_total = hist[-1][1].fields[0].fields[0] if hist else fl[0].fields[3].fields[1].fields[0]
-        reset = z3.BoolVal(False)
+        reset = st['f_end'] - st['f_start'] > 180          # FLOW_EXPANSION_LIMIT: the flow is re-based ("flow reset")
+        keep = z3.Not(reset)
         grew = new_total - st['f_amount']
+        ck.oblige('C12.expand.reset.accounting.' + tag, p, z3.And(reset, new_total != (st['f_amount'] - st['f_claimed']) + X),
+                  'a flow longer than 180 epochs is re-based on expansion; with no earlier expansion the re-based amount is taken from the expanding asset instead of the flow\'s own amount',
+                  site='expand_flow reset default')
         if kind == 'native':
             recv = z3.Int('attached')
-            ck.oblige('C12.expand.funded_eq_received.n', p, z3.And(grew != recv, fl[0].fields[6] == st['f_start']), 'expansion grows the funded amount by exactly the attached funds')
+            ck.oblige('C12.expand.funded_eq_received.n', p, z3.And(grew != recv, keep), 'expansion grows the funded amount by exactly the attached funds')
         else:
             recv = total(eff, 'pull', name, lambda e: same(e.dst, INC))
-            ck.oblige('C12.expand.funded_eq_received.c.no_transfer', p, z3.And(grew != recv, fl[0].fields[6] == st['f_start']),
+            ck.oblige('C12.expand.funded_eq_received.c.no_transfer', p, z3.And(grew != recv, keep),
                       'cw20 expansion: the TransferFrom is built but never added to the response, so the flow grows without receiving tokens', site='expand_flow cw20 TransferFrom dropped')
-        ck.oblige('C12.expand.amount.' + tag, p, z3.And(grew != X, fl[0].fields[6] == st['f_start']), 'the recorded total grows by the stated amount')
-        ck.oblige('C12.expand.claimed_kept.' + tag, p, z3.And(fl[0].fields[4].fields[0] != st['f_claimed'], fl[0].fields[6] == st['f_start']), 'claimed amount untouched by an expansion')
+        ck.oblige('C12.expand.amount.' + tag, p, z3.And(grew != X, keep), 'the recorded total grows by the stated amount')
+        ck.oblige('C12.expand.claimed_kept.' + tag, p, z3.And(fl[0].fields[4].fields[0] != st['f_claimed'], keep), 'claimed amount untouched by an expansion')
     ck.require(n >= 1, tag + ': no Ok path')
 
 
